@@ -3,8 +3,10 @@ import KrakenModel.Model.BlobStore
   Model of lib/store/tiered (C09): a memory store and a disk store (both `Model.BlobStore`), the
   flusher's bookkeeping, client operations and the flush worker.
 
-  * Client operations (`COp`) are the methods of `tiered.store`; each is modelled as one atomic step
-    (the step controller of the harness runs them while every worker is parked).
+  * Client operations (`COp`) are the methods of `tiered.store`; `capply` runs one as a single step.
+    In the code they hold the store mutex, which the worker never takes: `cseg` (below) cuts them at
+    the points between their store calls — the harness runs worker steps there too; the invariant
+    proof is about `capply`.
   * The flush worker is a small-step program (`PC`); its atomic steps are the lock regions of
     `flusher.go` — `nextToFlush`, `memOpen`, the abort check with `disk.Create`, each `Read` of the
     copy loop (with the `Write` that follows it), `disk.MarkComplete`, the `dirtyMD` snapshot, the
@@ -13,7 +15,14 @@ import KrakenModel.Model.BlobStore
   * Flusher entries are heap objects (`ents`, by id): the worker keeps the *pointer* it took from the
     queue, `f.blobs` (`fmap`) maps a **key** to the current entry — exactly as in the code, no
     incarnation in the map.  A schedule is a `List Act`; `work i` runs one atomic step of worker `i`.
-  Blobs are at most one copy buffer (32 KiB) long, so `io.Copy` performs at most two reads.
+  `io.Copy` moves the blob in chunks: every `Read` (with the `Write` that follows it) is one atomic
+  step, the chunk length is a choice of the schedule (`pick`: 0 = everything that is left, the case of
+  a blob shorter than the 32 KiB copy buffer; c > 0 = at most c bytes), so every buffer size and every
+  short read is covered.
+  Every metadata suffix is treated as registered with lib/store/metadata: for a suffix without a
+  factory the (repaired) worker skips the flush, which is what this model does for a suffix that was
+  never set — reading "absent" and deleting an absent sidecar on disk changes nothing.  The crash of
+  the unrepaired worker on such a suffix is `legacyWorkerPanics`.
   Core Lean only.
 -/
 namespace KrakenModel.Tiered
@@ -34,7 +43,7 @@ inductive PC where
   | fCreate                    -- memOpen done, before the locked `f.blobs[key]` check + disk.Create
   | fCreated                   -- disk entry created, before io.Copy
   | fCopy                      -- before the first Read of io.Copy
-  | fCopyEof                   -- first chunk written, before the second Read
+  | fCopyEof                   -- a chunk written, before the next Read
   | fCopied (evicted : Bool)   -- io.Copy returned (ErrEvicted or nil), before disk.MarkComplete
   | mdSnap                     -- before the first dirtyMD snapshot
   | mdRead (todo : List Nat)   -- before mem.GetMetadata of the head of `todo`
@@ -54,6 +63,7 @@ structure Worker where
   dataSize : Nat := 0
   minc : Nat := 0              -- incarnation behind `memF`
   dinc : Nat := 0              -- incarnation behind `diskF`
+  copied : Nat := 0            -- bytes copied so far (offset of `memF` and `diskF`)
   deriving DecidableEq, Repr
 
 structure TState where
@@ -258,9 +268,24 @@ def popQueue (fmap : List (Key × Nat)) : List Key → Option (Key × Nat) × Li
     | some id => (some (k, id), q)
     | none => popQueue fmap q
 
-/-- one atomic step of a worker. `pick` resolves the one nondeterministic choice of the code: the
+/-- one `Read` of `io.Copy` and the `Write` of what it returned: `ErrEvicted` once the memory handle is
+    stale, `io.EOF` at the end, otherwise the next chunk (`pick` = 0: all that is left, else at most
+    `pick` bytes) is appended to the disk file — unless that file has been unlinked meanwhile -/
+def copyStep (t : TState) (w : Worker) (pick : Nat) : TState × Worker :=
+  match hBlob t.mem { key := w.key, inc := w.minc } with
+  | none => (t, { w with pc := .fCopied true })
+  | some b =>
+    if b.data.length ≤ w.copied then (t, { w with pc := .fCopied false }) else
+    let chunk := if pick = 0 then b.data.drop w.copied else (b.data.drop w.copied).take pick
+    match hBlob t.disk { key := w.key, inc := w.dinc } with
+    | some db =>
+      ({ t with disk := setData t.disk w.key db (db.data ++ chunk) },
+       { w with pc := .fCopyEof, copied := w.copied + chunk.length })
+    | none => (t, { w with pc := .fCopyEof, copied := w.copied + chunk.length })
+
+/-- one atomic step of a worker. `pick` resolves the nondeterministic choices of the code: the
     iteration order of the `dirtyMD` snapshot (a Go map) — at `mdRead` the entry at index
-    `pick % length` of the remaining snapshot is flushed next -/
+    `pick % length` of the remaining snapshot is flushed next — and the chunk length of a copy step -/
 def wstep (t : TState) (w : Worker) (pick : Nat := 0) : TState × Worker :=
   match w.pc with
   | .idle => (t, { w with pc := .next })   -- a notify token arrived (or a spurious look at the queue)
@@ -294,19 +319,9 @@ def wstep (t : TState) (w : Worker) (pick : Nat := 0) : TState × Worker :=
       ({ t with disk := rd.1, diskEvicted := w.key :: (t.diskEvicted ++ diskVictims t.disk w.key w.dataSize) },
        { w with pc := .fail1 })
     | _ => ({ t with disk := rd.1 }, { w with pc := .fail1 })
-  | .fCreated => (t, { w with pc := .fCopy })
-  | .fCopy =>
-    match hBlob t.mem { key := w.key, inc := w.minc } with
-    | none => (t, { w with pc := .fCopied true })
-    | some b =>
-      if b.data.isEmpty then (t, { w with pc := .fCopied false }) else
-      match hBlob t.disk { key := w.key, inc := w.dinc } with
-      | some db => ({ t with disk := setData t.disk w.key db b.data }, { w with pc := .fCopyEof })
-      | none => (t, { w with pc := .fCopyEof })   -- the file behind diskF has been unlinked
-  | .fCopyEof =>
-    match hBlob t.mem { key := w.key, inc := w.minc } with
-    | none => (t, { w with pc := .fCopied true })
-    | some _ => (t, { w with pc := .fCopied false })
+  | .fCreated => (t, { w with pc := .fCopy, copied := 0 })
+  | .fCopy => copyStep t w pick
+  | .fCopyEof => copyStep t w pick
   | .fCopied evicted =>
     if evicted then (t, { w with pc := .mdSnap })
     else ({ t with disk := (markComplete t.disk w.key).1 }, { w with pc := .mdSnap })
@@ -373,5 +388,222 @@ def readMd (t : TState) (k : Key) (sfx : Nat) : Option (Option Bytes) :=
   | _ => none
 
 def visible (t : TState) (k : Key) : Bool := inStore t.mem k || inStore t.disk k
+
+/-! ### `tiered.File`: a handle that survives the flush and the eviction from memory
+
+`memF` is tried first on every call; once it answers `ErrEvicted` the handle switches over — once
+(`sync.Once`) — to the disk copy opened **by key**, at the offset `memF` had reached.  A disk file
+that has been unlinked (evicted / deleted) keeps its bytes for the holder of the descriptor: the
+model answers `unknown` there (the property makes no claim about such blobs). -/
+
+inductive Sw where
+  | notYet                          -- `once` not fired
+  | bad                             -- switch-over failed: `openErr` is sticky
+  | disk (dinc : Nat) (off : Nat)   -- `diskF` and its offset
+  deriving DecidableEq, Repr
+
+structure TFile where
+  key : Key
+  mem : Option Nat := none          -- incarnation behind `memF` (none: opened from disk)
+  moff : Nat := 0                   -- offset of `memF`
+  sw : Sw := .notYet
+  deriving DecidableEq, Repr
+
+inductive FOut where
+  | data (b : Bytes)
+  | eof
+  | n (v : Nat)
+  | badSwitch
+  | unknown
+  | err (e : Err)
+  deriving DecidableEq, Repr
+
+/-- `store.Open` keeping the handle -/
+def tOpenFile (t : TState) (k : Key) (sc : Scope) : TState × Option TFile × Out :=
+  let rm := openB t.mem k sc
+  match rm.2 with
+  | .opened inc _ => ({ t with mem := rm.1 }, some { key := k, mem := some inc }, .ok)
+  | .err .notExist =>
+    let rd := openB t.disk k sc
+    match rd.2 with
+    | .opened inc _ => ({ t with disk := rd.1 }, some { key := k, sw := .disk inc 0 }, .ok)
+    | o => (t, none, o)
+  | o => (t, none, o)
+
+/-- `openDiskFileIfNeeded` -/
+def tfSwitch (t : TState) (f : TFile) : TState × TFile :=
+  match f.sw with
+  | .notYet =>
+    match (openB t.disk f.key .any).2 with
+    | .opened inc _ => ({ t with disk := (openB t.disk f.key .any).1 }, { f with sw := .disk inc f.moff })
+    | _ => (t, { f with sw := .bad })
+  | _ => (t, f)
+
+/-- bytes behind an open disk descriptor (`none`: unlinked, not modelled) -/
+def diskData (t : TState) (k : Key) (dinc : Nat) : Option Bytes :=
+  (hBlob t.disk { key := k, inc := dinc }).map (·.data)
+
+def tfViaDisk (t : TState) (f : TFile) (n : Nat) : TState × TFile × FOut :=
+  match f.sw with
+  | .disk dinc off =>
+    match diskData t f.key dinc with
+    | none => (t, f, .unknown)
+    | some d =>
+      if n = 0 then (t, f, .data []) else
+      if d.length ≤ off then (t, f, .eof) else
+      let out := (d.drop off).take n
+      (t, { f with sw := .disk dinc (off + out.length) }, .data out)
+  | _ => (t, f, .badSwitch)
+
+/-- `File.Read(p)` with `len(p) = n` -/
+def tfRead (t : TState) (f : TFile) (n : Nat) : TState × TFile × FOut :=
+  match f.mem with
+  | none => tfViaDisk t f n
+  | some minc =>
+    let r := hRead t.mem { key := f.key, inc := minc, off := f.moff } n
+    match r.2 with
+    | .evicted => let r' := tfSwitch t f; tfViaDisk r'.1 r'.2 n
+    | .data b _ => (t, { f with moff := r.1.off }, .data b)
+    | .eof => (t, f, .eof)
+    | _ => (t, f, .err .badArg)
+
+/-- `File.ReadAt(p, off)`; a short read carries `io.EOF` on both tiers -/
+def tfReadAt (t : TState) (f : TFile) (n off : Nat) : TState × TFile × FOut × Bool :=
+  let viaDisk (t : TState) (f : TFile) : TState × TFile × FOut × Bool :=
+    match f.sw with
+    | .disk dinc _ =>
+      match diskData t f.key dinc with
+      | none => (t, f, .unknown, false)
+      | some d =>
+        if n = 0 then (t, f, .data [], false) else
+        if d.length ≤ off then (t, f, .eof, false) else
+        let out := (d.drop off).take n
+        (t, f, .data out, decide (out.length < n))
+    | _ => (t, f, .badSwitch, false)
+  match f.mem with
+  | none => viaDisk t f
+  | some minc =>
+    match hReadAt t.mem { key := f.key, inc := minc, off := f.moff } n off with
+    | .evicted => let r' := tfSwitch t f; viaDisk r'.1 r'.2
+    | .data b e => (t, f, .data b, e)
+    | .eof => (t, f, .eof, false)
+    | _ => (t, f, .err .badArg, false)
+
+/-- `File.Size()`: 0 after a failed switch-over -/
+def tfSize (t : TState) (f : TFile) : TState × TFile × FOut :=
+  let viaDisk (t : TState) (f : TFile) : TState × TFile × FOut :=
+    match f.sw with
+    | .disk dinc _ =>
+      match diskData t f.key dinc with
+      | none => (t, f, .unknown)
+      | some d => (t, f, .n d.length)
+    | _ => (t, f, .n 0)
+  match f.mem with
+  | none => viaDisk t f
+  | some minc =>
+    match hSize t.mem { key := f.key, inc := minc, off := f.moff } with
+    | .n v => (t, f, .n v)
+    | _ => let r' := tfSwitch t f; viaDisk r'.1 r'.2
+
+/-- everything the handle delivers from offset 0 (what a fresh reader of the handle sees) -/
+def tfContent (t : TState) (f : TFile) : Option Bytes :=
+  match f.mem with
+  | some minc =>
+    match hBlob t.mem { key := f.key, inc := minc } with
+    | some b => some b.data
+    | none =>
+      match (tfSwitch t f).2.sw with
+      | .disk dinc _ => diskData (tfSwitch t f).1 f.key dinc
+      | _ => none
+  | none =>
+    match f.sw with
+    | .disk dinc _ => diskData t f.key dinc
+    | _ => none
+
+/-! ### client operations in the steps the code takes
+
+The client operations of `tiered.store` run under `store.mu`, which the flush worker never takes:
+worker steps may fall between the store calls of one operation.  `cseg t o i` is the `i`-th segment
+of operation `o` (up to the next point between two store calls, or to the end: `some result`).
+`crun` runs the segments back to back — `crun_eq_capply` (Proof/C09Split) shows that this is the
+atomic `capply`.  The harness interleaves worker steps between the segments. -/
+
+def cseg (t : TState) : COp → Nat → TState × Option Out
+  | .create k size data, 0 =>
+    if inStore t.mem k || inStore t.disk k then (t, some (.err .exist)) else
+    let rm := create t.mem k size data
+    match rm.2 with
+    | .created _ _ => ({ t with mem := rm.1, diskEvicted := t.diskEvicted.filter (· ≠ k) }, some .ok)
+    | .err .noSpace => ({ t with mem := rm.1 }, none)
+    | o => ({ t with mem := rm.1 }, some o)
+  | .create k size data, _ =>
+    let rd := create t.disk k size data
+    match rd.2 with
+    | .created _ _ =>
+      ({ t with disk := rd.1, diskEvicted := (t.diskEvicted ++ diskVictims t.disk k size).filter (· ≠ k) }, some .ok)
+    | o => ({ t with disk := rd.1, diskEvicted := t.diskEvicted ++ diskVictims t.disk k size }, some o)
+  | .markComplete k, 0 =>
+    if isComplete t.mem k then (t, some .ok) else
+    if isComplete t.disk k then (t, some .ok) else
+    let rb := ban t.mem k .any
+    match rb.2 with
+    | .err .notExist => ({ t with disk := (markComplete t.disk k).1 }, some (markComplete t.disk k).2)
+    | .ok => ({ t with mem := rb.1 }, none)
+    | o => ({ t with mem := rb.1 }, some o)
+  | .markComplete k, 1 =>
+    let rc := markComplete t.mem k
+    match rc.2 with
+    | .ok => ({ t with mem := rc.1 }, none)
+    | o => ({ t with mem := rc.1 }, some o)
+  | .markComplete k, _ =>
+    let size := match t.mem.blobs.get k with | some b => b.data.length | none => 0
+    (markDirty t k size, some .ok)
+  | .delete k sc, 0 =>
+    let rm := delete t.mem k sc
+    match rm.2 with
+    | .err .outOfScope => (t, some (.err .outOfScope))
+    | .err .notExist => ({ t with disk := (delete t.disk k sc).1 }, some (delete t.disk k sc).2)
+    | .ok => ({ t with mem := rm.1 }, none)
+    | o => ({ t with mem := rm.1 }, some o)
+  | .delete k _, 1 => ({ t with fmap := fdel t.fmap k }, none)
+  | .delete k _, _ => ({ t with disk := (delete t.disk k .any).1 }, some .ok)
+  | .setMd k sc m, 0 =>
+    let rb := ban t.mem k sc
+    match rb.2 with
+    | .err .outOfScope => (t, some (.err .outOfScope))
+    | .err .notExist => ({ t with disk := (setMd t.disk k sc m).1 }, some (setMd t.disk k sc m).2)
+    | .ok => ({ t with mem := rb.1 }, none)
+    | o => ({ t with mem := rb.1 }, some o)
+  | .setMd k _ m, 1 => ({ t with mem := (setMd t.mem k .any m).1 }, none)
+  | .setMd k _ m, _ => (markMetadataDirty t k m.sfx, some .ok)
+  | .delMd k sc sfx, 0 =>
+    let rb := ban t.mem k sc
+    match rb.2 with
+    | .err .outOfScope => (t, some (.err .outOfScope))
+    | .err .notExist => ({ t with disk := (delMd t.disk k sc sfx).1 }, some (delMd t.disk k sc sfx).2)
+    | .ok => ({ t with mem := rb.1 }, none)
+    | o => ({ t with mem := rb.1 }, some o)
+  | .delMd k _ sfx, 1 => ({ t with mem := (delMd t.mem k .any sfx).1 }, none)
+  | .delMd k _ sfx, _ => (markMetadataDirty t k sfx, some .ok)
+  | o, _ => (capply t o).1 |> fun t' => (t', some (capply t o).2)
+
+/-- the segments of `o` from segment `i` on, back to back (at most `fuel` of them) -/
+def crun (t : TState) (o : COp) (i : Nat) : Nat → TState × Out
+  | 0 => (t, .err .panic)
+  | fuel + 1 =>
+    match cseg t o i with
+    | (t', some out) => (t', out)
+    | (t', none) => crun t' o (i + 1) fuel
+
+/-! ### the unrepaired worker on a suffix without a metadata factory -/
+
+/-- `flushMetadata` before the repair: `metadata.CreateFromSuffix` returns nil for a suffix that no
+    factory matches and `mem.GetMetadata(key, nil)` dereferences it — on the worker goroutine, which
+    takes the process down.  `reg` says which suffixes have a factory. -/
+def legacyWorkerPanics (reg : Nat → Bool) (w : Worker) (pick : Nat) : Bool :=
+  match w.pc with
+  | .mdRead (s0 :: rest) => !reg ((s0 :: rest).getD (pick % (rest.length + 1)) s0)
+  | _ => false
+
 
 end KrakenModel.Tiered
